@@ -1,7 +1,7 @@
 (** C01: execution equals the sequential reference semantics under any scheduling and execution mode.
     Statements only; proofs are in Gql/ProofsSched.v, Gql/ProofsSplit.v. *)
 From Coq Require Import List String Bool Arith Permutation ZArith.
-From Thunder Require Import Lib.Json Gql.Types Gql.Value Gql.Query Gql.Ref Gql.Exec Gql.ProofsSched Gql.ProofsSplit Gql.ProofsRef Gql.ProofsMain Gql.Witness Gql.ProofsWitness.
+From Thunder Require Import Lib.Json Gql.Types Gql.Value Gql.Query Gql.Ref Gql.Exec Gql.ProofsSched Gql.ProofsSplit Gql.ProofsRef Gql.ProofsMain Gql.ProofsEnt Gql.ProofsTop Gql.Witness Gql.ProofsWitness.
 Import ListNotations.
 Open Scope string_scope.
 Open Scope list_scope.
@@ -51,17 +51,17 @@ Print Assumptions split_work_unit_pairs.
     raises nothing (the query fits the schema, the data has a result for every selected field, no
     resolver fails, the fuel suffices), then Execute can be started, and once no unit is pending it
     returns exactly the JSON of [eval_ref] - same values, same key order.
-    Side conditions on the reference result itself: each of its nodes has its own response path (no
-    object carries a key twice; Flatten makes aliases unique, the condition excludes an alias "__key" on
-    a keyed object), and [render]'s fuel covers its nesting depth. *)
+    Side conditions on the reference result itself: no object in it carries a key twice (Flatten makes
+    aliases unique; the condition excludes an alias "__key" on a keyed object), and [render]'s fuel
+    covers its nesting depth. *)
 Theorem execution_equals_reference : forall S fuel rf q root sched,
   snd (eval_ref S fuel q root) = [] ->
-  NoDup (map fst (ent [] (fst (eval_ref S fuel q root)))) ->
+  json_keys_unique (fst (eval_ref S fuel q root)) = true ->
   jdepth (fst (eval_ref S fuel q root)) <= Datatypes.S rf ->
   exists st0, init fixed S q root = inl st0 /\
     (complete (run_sched fixed S fuel sched st0) = true ->
      finish rf (run_sched fixed S fuel sched st0) = Some (ROk (fst (eval_ref S fuel q root)))).
-Proof. exact ProofsMain.execution_equals_reference. Qed.
+Proof. exact ProofsTop.execution_equals_reference_k. Qed.
 Print Assumptions execution_equals_reference.
 
 (** Termination: under the same hypothesis there is a bound such that every schedule at least that
@@ -114,13 +114,12 @@ Definition ex_query : squery :=
 Example main_hypotheses_satisfiable :
   exists ss, parse [] ex_query = Some ss /\
     snd (eval_ref ex_schema 40 ss ex_root) = [] /\
-    NoDup (map fst (ent [] (fst (eval_ref ex_schema 40 ss ex_root)))) /\
+    json_keys_unique (fst (eval_ref ex_schema 40 ss ex_root)) = true /\
     jdepth (fst (eval_ref ex_schema 40 ss ex_root)) <= 40 /\
     List.length (ent [] (fst (eval_ref ex_schema 40 ss ex_root))) = 20.
 Proof.
   eexists. split; [vm_compute; reflexivity|]. split; [vm_compute; reflexivity|].
-  split; [|split; [vm_compute; repeat constructor | vm_compute; reflexivity]].
-  vm_compute. repeat (constructor; [simpl; intuition discriminate|]). constructor.
+  split; [vm_compute; reflexivity|]. split; [vm_compute; repeat constructor | vm_compute; reflexivity].
 Qed.
 
 Example hypotheses_satisfiable :
